@@ -139,7 +139,9 @@ def nsessRun (ss : NSess) : List (List String) → List String → Option (List 
   | op :: rest, acc => do
     let (res, ss') ← nsessStep ss op
     let newAir := ss'.s.w.air.drop ss'.airSeen
-    let line := res ++ " ~ " ++ " || ".intercalate (ss'.s.w.radios.map showRadio) ++ " ~ ["
+    let all := ",".intercalate (ss'.s.nodes.map fun n =>
+      s!"{n.rf.rid}/{n.a.addr}/{n.a.netLvl}/{showBool n.cfg.allowMulticast}/{n.cfg.pfx}/{hex n.cfg.sfx}")
+    let line := res ++ " all=" ++ all ++ " ~ " ++ " || ".intercalate (ss'.s.w.radios.map showRadio) ++ " ~ ["
       ++ ",".intercalate (newAir.map showAir) ++ "]"
     nsessRun { ss' with airSeen := ss'.s.w.air.length } rest (line :: acc)
 
